@@ -168,3 +168,17 @@ def rel_assumed(trace, a, op, b, upto=None):
         if (x, o, y) == (a, op, b) or (y, _SWAP[o], x) == (a, op, b):
             return True
     return False
+
+
+def run_rules(rep, m, rules):
+    """Run a property's rules.  A construct that cannot be analysed stops the run as analysis-broken - unless concrete
+    findings were already made: those are reported (a violation outranks 'undecided'), and the undecided part is noted."""
+    from ..frontend import AnalysisBroken
+    try:
+        rules(rep, m)
+    except AnalysisBroken as e:
+        if not rep.findings:
+            raise
+        if not hasattr(rep, "deferred_broken"):
+            rep.deferred_broken = []
+        rep.deferred_broken.append(str(e))
